@@ -91,6 +91,25 @@ def run(module_path, cfg_text, workdir, workers=1, env=None, timeout=600, covera
     """module_path: absolute path of root .tla; cfg_text written to workdir."""
     name = os.path.splitext(os.path.basename(module_path))[0]
     os.makedirs(workdir, exist_ok=True)
+    # results of runs that do not depend on the implementation (model checking, case generation: no env, no dump) are shared
+    # between the first pass of a check and its second pass in another interpreter mode (harness/main.py)
+    cache = os.environ.get("VERIF_TLC_CACHE")
+    ckey = None
+    if cache and not env and not dump and not simulate:
+        import hashlib, pickle
+        h = hashlib.sha256()
+        h.update(open(module_path, "rb").read())
+        h.update(cfg_text.encode())
+        h.update(repr((workers > 1, coverage, depth, seed, deadlock, tuple(extra))).encode())
+        for fn in sorted(os.listdir(SPEC)):
+            if fn.endswith(".tla"):
+                st = os.stat(os.path.join(SPEC, fn))
+                h.update(("%s:%d:%d" % (fn, st.st_size, int(st.st_mtime))).encode())
+        ckey = os.path.join(cache, h.hexdigest() + ".pkl")
+        if os.path.exists(ckey):
+            with open(ckey, "rb") as f:
+                rc, out, wall = pickle.load(f)
+            return TlcResult(rc, out, wall)
     cfg = os.path.join(workdir, name + ".cfg")
     with open(cfg, "w") as f:
         f.write(cfg_text)
@@ -123,6 +142,14 @@ def run(module_path, cfg_text, workdir, workers=1, env=None, timeout=600, covera
                            timeout=timeout, text=True, errors="replace")
     except subprocess.TimeoutExpired as ex:
         raise MachineryError("TLC timeout after %ss on %s" % (timeout, name))
+    if ckey:
+        import pickle
+        try:
+            with open(ckey + ".tmp", "wb") as f:
+                pickle.dump((p.returncode, p.stdout, time.time() - t0), f)
+            os.replace(ckey + ".tmp", ckey)
+        except OSError:
+            pass
     return TlcResult(p.returncode, p.stdout, time.time() - t0)
 
 
